@@ -103,7 +103,7 @@ def judge(script, configured_engine, results):
 client_user = e2e.client_user
 
 
-def run_sync_client(rng, peer, discover, oids, drop=()):
+def run_sync_client(rng, peer, discover, oids, drop=(), user=None):
     from gufo.snmp.sync_client import SnmpSession
     script = AgentScript(rng, peer, discover, drop=drop)
     agent = e2e.ThreadAgent(lambda dg: [(0, r) for r in script(dg)])
@@ -112,7 +112,7 @@ def run_sync_client(rng, peer, discover, oids, drop=()):
 
     def body():
         sess = SnmpSession("127.0.0.1", port=agent.port, engine_id=rng.choice([None, b""]) if discover else st.engine_id,
-                           user=client_user(st), timeout=0.6 if drop else 3.0)
+                           user=user or client_user(st), timeout=0.6 if drop else 3.0)
         for attempt in range(len(drop) + 1):
             try:
                 sess.refresh()
@@ -132,7 +132,7 @@ def run_sync_client(rng, peer, discover, oids, drop=()):
     return script, r, results
 
 
-def run_async_client(rng, peer, discover, oids, drop=()):
+def run_async_client(rng, peer, discover, oids, drop=(), user=None):
     script = AgentScript(rng, peer, discover, drop=drop)
     st = peer.state
     results = []
@@ -140,7 +140,7 @@ def run_async_client(rng, peer, discover, oids, drop=()):
     async def main(port):
         from gufo.snmp.async_client import SnmpSession
         sess = SnmpSession("127.0.0.1", port=port, engine_id=rng.choice([None, b""]) if discover else st.engine_id,
-                           user=client_user(st), timeout=0.6 if drop else 3.0)
+                           user=user or client_user(st), timeout=0.6 if drop else 3.0)
         for attempt in range(len(drop) + 1):
             try:
                 await sess.refresh()
@@ -181,6 +181,25 @@ def client_cases(rng, n, lossy=True):
         else:
             why = judge(script, None if discover else peer.state.engine_id, results)
         yield key, script, r, why
+
+    # one User object configured once and used for several sessions of the process, towards agents with different
+    # engine ids: every session must end up with ITS engine's keys, and the caller's object must stay usable
+    for mode in ("sync", "async"):
+        auth = rng.choice([1, 2])
+        priv = rng.choice([0, 1, 2])
+        apw, ppw = b"shared-auth-secret", b"shared-priv-secret"
+        peers = [e2e.Peer("v3", auth=auth, priv=priv, engine_id=bytes(rng.getrandbits(8) for _ in range(rng.choice([9, 12, 17]))),
+                          user="shared", auth_pw=apw, priv_pw=ppw) for _ in range(2)]
+        shared = client_user(peers[0].state)
+        for k, peer in enumerate(peers):
+            runner = run_sync_client if mode == "sync" else run_async_client
+            script, r, results = runner(rng, peer, True, ["1.3.6.1.2.1.1.1.0"], (), shared)
+            key = f"{mode}:{peer.label}:shared-user-object:session{k + 1}"
+            if r[0] != "ok":
+                why = f"the client failed with {r[1]} against a conforming agent"
+            else:
+                why = judge(script, None, results)
+            yield key, script, r, why
 
 
 def refresh_trace(mode, peer, given, outcomes, ncalls):
